@@ -541,7 +541,11 @@ def parse_line(line: str) -> Optional[instructions.Instruction]:
 
     f: Callable[[str], Instruction]
     for key, f in parser_rules:
-        if line.startswith(key):
+        # a rule which does not end with a space is an opcode name: it must be followed by a space or
+        # by the end of the line. Otherwise `assertt` is parsed as `assert` and `gloadsss` as `gloadss`.
+        if line.startswith(key) and (
+            key.endswith(" ") or len(line) == len(key) or line[len(key)] == " "
+        ):
             ins = f(line[len(key) :].strip())
             ins.comment = comment
             ins.source_code = source_code_line
